@@ -266,13 +266,13 @@ CHECKS = {
     ),
     'C17': dict(
         engine='oracle-server + cell enumeration + Hypothesis permutations (harness/py/prop_C17.py, cells.py)',
-        technique='cell enumeration (restricting feature x placement x instantiation style) with an implied-verdict oracle and twins, plus metamorphic relations (never-instantiated template carrying a feature, permutation of independent declarations)',
+        technique='cell enumeration (restricting feature x placement x instantiation style) with an implied-verdict oracle and twins, plus metamorphic relations (never-instantiated template carrying a feature, permutation of independent declarations) and a stride of the cells embedded in Hypothesis-generated host models',
         category='exploration',
         text=('Every restricting feature of the statement (clock compared with / assigned from / initialised with a floating '
               'value (also clock arrays and record fields, branches of conditional updates, bodies of called functions), clock rate other than 0 or 1 (also in quantifier bodies, disjuncts, implications), dynamic template, non-broadcast channel, priorities incl. one-level and template-local lists) is placed at every '
               'listed placement (conjunct positions, operand orders, all relational operators, guard and invariant, update list '
               'positions, global and local declarations, first/last) and in five ways of entering the system; the verdict for '
-              'the affected analysis must be false. The twin without the feature makes each cell attributable. Adding a '
+              'the affected analysis must be false. The twin without the feature makes each cell attributable. A stride of the cells is also spliced into generated host models (identifiers renamed apart), where the same implied verdict is required. Adding a '
               'never-instantiated template with a feature, or permuting independent declarations, must not change the verdict.'),
         design_ref='DESIGN.md 4/C17',
         note=('One-directional as stated. Non-constant clock rates are outside the cells (the repository\'s own test expects symbolic '
